@@ -283,7 +283,13 @@ def finally_paths_program(rng):
                 "try { throw \"direct %(k)d\"; } catch e { log.push([\"direct\", e]); }",
                 "try { log.push([0, 1][%(k)d + 2]); } catch e { log.push(\"direct index\"); }",
                 "try { note(\"quiet %(k)d\"); } catch e { log.push(\"never\"); }",
-                "for q in [%(k)d, %(k)d + 1] { tolerant(q); }" if False else "tolerant(tolerant(%(k)d) + 1);"]
+                "tolerant(tolerant(%(k)d) + 1);",
+                # a fiber with a try / finally (and a return through it) of its own, started and finished - or left
+                # suspended inside its try block - while the enclosing function's return is waiting
+                "var fb%(k)d = Fiber.new(|| { try { log.push(Fiber.yield(%(k)d)); } finally { log.push(\"fiber finally\"); } return %(k)d + 1; }); log.push(fb%(k)d.call()); log.push(fb%(k)d.call(\"resumed\"));" if False else
+                "log.push(Fiber.new(|| { try { return tolerant(%(k)d); } finally { log.push(\"fiber finally\"); } }).call());",
+                "log.push(Fiber.new(|| { try { Fiber.yield(%(k)d); } finally { log.push(\"never reached\"); } }).call());",
+                "log.push([%(k)d, %(k)d + 1].iter().map(|q| tolerant(q)).collect());"]
     nf = r.range(2, 5)
     for k in range(nf):
         exitk = r.choice(["return_value", "return_bare", "fall", "throw", "return_call", "cond_return"])
